@@ -182,8 +182,8 @@ def compare_tables(ctx, tag, sig, base, other, probe, fscale, T, tol, exact_nan=
         Pb = col_items(other, c)[2]
         if len(Pb):
             ctx.ev("unit-normalisation", len(Pb))
-            nrm = np.max(np.abs(Pb), axis=1)
-            ctx.check(np.max(np.abs(nrm - 1)) <= 1e-12, f"{sig}:normalisation", lambda: f"{tag}: mode shapes not normalised to unit largest component: {nrm}")
+            nrm = gen.unit_component_error(Pb)
+            ctx.check(np.max(nrm) <= 1e-12, f"{sig}:normalisation", lambda: f"{tag}: largest-magnitude component of a mode shape differs from 1 by {np.max(nrm):.3g}")
     if npoles >= 4:
         ctx.nontrivial((tag, judged, npoles))
     return judged
@@ -231,9 +231,9 @@ def compare_mpe(ctx, tag, sig, base, other, probe, fscale, T, tol):
     for k in range(len(fb)):
         pa = T(Pb[:, k])
         ds = max(ds, 1 - max(gen.mac(pa, Po[:, k]), gen.mac(np.conj(pa), Po[:, k])))
-        nrm = np.max(np.abs(Po[:, k]))
+        nrm = float(gen.unit_component_error(Po[:, k])[0])
         ctx.ev("unit-normalisation")
-        ctx.check(abs(nrm - 1) <= 1e-12, f"{sig}:normalisation", lambda: f"{tag}: extracted shape not unit-normalised ({nrm})")
+        ctx.check(nrm <= 1e-12, f"{sig}:normalisation", lambda: f"{tag}: largest-magnitude component of an extracted shape differs from 1 by {nrm:.3g}")
     ctx.maxi(f"{tag.split('@')[0]}: worst extracted-mode difference", max(d, dx, ds))
     tol = max(tol, 100 * dprobe)
     ctx.check(d <= tol and dx <= tol and ds <= tol, f"{sig}:extracted_modes_differ", lambda: f"{tag}: extracted modes: frequency {d:.3e}, damping {dx:.3e}, 1-MAC {ds:.3e} (tolerance {tol:.0e})")
